@@ -49,6 +49,12 @@ func (cs *CachedStore) HasByHeight(ctx context.Context, height uint64) (bool, er
 
 // GetByHeight returns accessor for given height and puts it into cache.
 func (cs *CachedStore) GetByHeight(ctx context.Context, height uint64) (eds.AccessorStreamer, error) {
+	// hold the height lock like Store.GetByHeight does, so that a concurrent remove of the height
+	// cannot interleave between opening the file and publishing the accessor in the cache
+	lock := cs.store.stripLock.byHeight(height)
+	lock.RLock()
+	defer lock.RUnlock()
+
 	acc, err := cs.combinedCache.First().Get(height)
 	if err == nil {
 		return acc, nil
